@@ -61,14 +61,64 @@ def do_import(module: str, form: str) -> str | None:
     return None
 
 
+class _Injected(KeyboardInterrupt):
+    """The asynchronous exception injected into an import (Ctrl-C shaped)."""
+
+
+def import_with_fault(module: str, form: str, at: int, pkg_prefix: str) -> dict:
+    """Execute one import statement while a trace function counts line events in the package's
+    own files (module bodies, class bodies) and raises at the ``at``-th one."""
+    seen = [0]
+    where = [None]
+    fired = [False]
+
+    def local(frame, event, arg):
+        if event == "line" and not fired[0]:
+            seen[0] += 1
+            if seen[0] >= at:
+                fired[0] = True
+                where[0] = f"{frame.f_code.co_filename.rsplit('/', 1)[-1]}:{frame.f_lineno}"
+                raise _Injected()
+        return local
+
+    def glob(frame, event, arg):
+        return local if frame.f_code.co_filename.startswith(pkg_prefix) else None
+
+    res: dict = {"fired": False, "lines_seen": 0, "where": None, "outcome": "ok", "misbound": None}
+    sys.settrace(glob)
+    try:
+        res["misbound"] = do_import(module, form)
+    except _Injected:
+        res["outcome"] = "injected"
+    except BaseException as e:  # noqa: BLE001 - a faulted import may fail in any way
+        res["outcome"] = f"other:{type(e).__name__}"
+    finally:
+        sys.settrace(None)
+    res["fired"] = fired[0]
+    res["lines_seen"] = seen[0]
+    res["where"] = where[0]
+    return res
+
+
 def main() -> None:
     req = json.load(sys.stdin)
     out: dict = {"ok": True, "failed": None, "misbound": []}
     step = 0
+    fault = req.get("fault")
     try:
         for module, form in req["imports"]:
             cur = [module, form, "history", step]
-            bad = do_import(module, form)
+            if fault is not None and int(fault["step"]) == step:
+                fr = import_with_fault(module, form, int(fault["at"]), req["pkg_prefix"])
+                out["fault"] = fr
+                if fr["fired"]:
+                    # the caller retries the interrupted import
+                    cur = [module, form, "retry-after-interrupt", step]
+                    bad = do_import(module, form)
+                else:
+                    bad = fr["misbound"]
+            else:
+                bad = do_import(module, form)
             if bad:
                 out["misbound"].append({"module": module, "form": form, "step": step, "what": bad})
             step += 1
